@@ -433,6 +433,11 @@ def check_compound(case):
             forms = [('dt_bump', s0, lambda: dt_bump(t, s0)), ('dt_bump', s1, lambda: dt_bump(t, s1)),
                      ('dt_bump*', [spell(u, n) for u, n in parts], lambda: dt_bump(t, *[spell(u, n) for u, n in parts])),
                      ('dt', s0, lambda: dt(t, s0))]
+            # the parts handed over as ONE list object, twice: the second call must see the same (untouched) list
+            plist = [spell(u, n) for u, n in parts]
+            pcopy = list(plist)
+            forms.append(('dt_bump[list]', pcopy, lambda: dt_bump(t, plist)))
+            forms.append(('dt_bump[list] again', pcopy, lambda: dt_bump(t, plist) if plist == pcopy else 'the list of bumps was changed to %r' % (plist,)))
             for via, shown, f in forms:
                 try:
                     r = f()
